@@ -97,7 +97,7 @@ func TestC13LockDropWindows(t *testing.T) {
 			// the pinned one.
 			c.Entries = append(c.Entries, ldEntry{Name: "s", Dir: true})
 		}
-		c.Mutation = rapid.SampledFrom([]string{"renamePinnedWithin", "renamePinnedOut", "removeSibling", "addSibling", "renameSibling", "replacePinned", "replacePinned", "none"}).Draw(rt, "mutation")
+		c.Mutation = rapid.SampledFrom([]string{"renamePinnedWithin", "renamePinnedOut", "removeSibling", "addSibling", "renameSibling", "replacePinned", "replacePinned", "removeAllChildren", "removeAllChildren", "overwriteChildren", "none"}).Draw(rt, "mutation")
 		c.PinFails = rapid.Bool().Draw(rt, "pinFails")
 		if c.Op == "renameOntoPinned" {
 			c.Mutation = rapid.SampledFrom([]string{"removeSource", "removeSource", "renameSourceAway", "none"}).Draw(rt, "renameMutation")
@@ -192,6 +192,7 @@ func TestC13LockDropWindows(t *testing.T) {
 		time.Sleep(2 * time.Millisecond)
 
 		// T3: the mutation, on the test goroutine.
+		var bulkErr error
 		after := map[string]bool{}
 		for k, v := range before {
 			after[k] = v
@@ -236,6 +237,43 @@ func TestC13LockDropWindows(t *testing.T) {
 					touched[sibling], touched["h"] = true, true
 				}
 			}
+		case "removeAllChildren":
+			// A bulk call of the worker detaches every entry at once
+			// under the parent's lock and then empties the detached
+			// directories, for which it has to wait for the pinned
+			// child's lock: it runs beside the call under test and
+			// finishes once the pin is released.
+			for k := range after {
+				delete(after, k)
+				touched[k] = true
+			}
+			wg.Add(1)
+			go func() {
+				defer wg.Done()
+				if err := p.RemoveAllChildren(false); err != nil {
+					bulkErr = err
+				}
+			}()
+			time.Sleep(2 * time.Millisecond)
+		case "overwriteChildren":
+			// CreateChildren with overwrite replaces the pinned
+			// directory and a sibling by fresh, empty directories.
+			repl := map[path.Component]virtual.InitialChild{}
+			for _, nm := range []string{c.Pinned, sibling} {
+				if nm != "" {
+					repl[path.MustNewComponent(nm)] = virtual.InitialChild{}.FromDirectory(virtual.EmptyInitialContentsFetcher)
+					after[nm] = true
+					touched[nm] = true
+				}
+			}
+			wg.Add(1)
+			go func() {
+				defer wg.Done()
+				if err := p.CreateChildren(repl, true); err != nil {
+					bulkErr = err
+				}
+			}()
+			time.Sleep(2 * time.Millisecond)
 		case "removeSource":
 			if _, s := p.VirtualRemove(ctx, path.MustNewComponent("s"), true, false); s == virtual.StatusOK {
 				delete(after, "s")
@@ -268,6 +306,9 @@ func TestC13LockDropWindows(t *testing.T) {
 			rt.Fatalf("C14: calls did not return within 30 s after the pinned lock was released (deadlock?); case=%+v\n%s", c, allGoroutineStacks())
 		}
 
+		if bulkErr != nil {
+			rt.Fatalf("C13: the bulk call of the mutation (%s) failed: %v; case=%+v", c.Mutation, bulkErr, c)
+		}
 		// Oracle.
 		switch c.Op {
 		case "readdir":
@@ -282,7 +323,11 @@ func TestC13LockDropWindows(t *testing.T) {
 				}
 			}
 			for nm, k := range seen {
-				if k > 1 {
+				if k > 1 && !touched[nm] {
+					// A name that the mutation re-bound to a new entry
+					// meanwhile may be seen in both incarnations (two
+					// entries, increasing cookies); an entry that was
+					// there throughout may not.
 					rt.Fatalf("C13: one VirtualReadDir call reported entry %q %d times: %v; case=%+v", nm, k, lst.names, c)
 				}
 				if _, b := before[nm]; !b {
